@@ -146,8 +146,8 @@ GEN_DIR = os.path.join(LEAN, "GoSSE", "Gen")
 GEN_EQUIV = "GoSSE.Proofs.GenEquiv"
 GEN_EQUIV_MODS = ["GoSSE.Proofs.GenEquiv", "GoSSE.Proofs.GenEquivQueue", "GoSSE.Proofs.GenEquivFields",
                   "GoSSE.Proofs.GenEquivScan", "GoSSE.Proofs.GenEquivWrite", "GoSSE.Proofs.GenEquivEncode", "GoSSE.Proofs.GenEquivReplay",
-                  "GoSSE.Proofs.GenEquivUnmarshal", "GoSSE.Proofs.GenEquivEvent", "GoSSE.Proofs.GenEquivSession", "GoSSE.Proofs.GenEquivServer", "GoSSE.Proofs.GenEquivFieldRoutes", "GoSSE.Proofs.GenEquivReset", "GoSSE.Proofs.GenEquivUpgrade", "GoSSE.Proofs.GenEquivBackoff", "GoSSE.Proofs.GenEquivJoeLoop", "GoSSE.Proofs.GenEquivJoeFanout", "GoSSE.Proofs.GenEquivDispatch", "GoSSE.Proofs.GenEquivRegistry"]
-GEN_MODS = ["Parser", "Root", "Bufio", "Fields", "Write", "Replay", "Unmarshal", "Event", "Session", "FieldRoutes", "Upgrade", "Server", "Reset", "JoeLoop", "Backoff"]   # in import order
+                  "GoSSE.Proofs.GenEquivUnmarshal", "GoSSE.Proofs.GenEquivEvent", "GoSSE.Proofs.GenEquivSession", "GoSSE.Proofs.GenEquivServer", "GoSSE.Proofs.GenEquivFieldRoutes", "GoSSE.Proofs.GenEquivReset", "GoSSE.Proofs.GenEquivUpgrade", "GoSSE.Proofs.GenEquivBackoff", "GoSSE.Proofs.GenEquivJoeLoop", "GoSSE.Proofs.GenEquivJoeFanout", "GoSSE.Proofs.GenEquivDispatch", "GoSSE.Proofs.GenEquivRegistry", "GoSSE.Proofs.GenEquivWriters"]
+GEN_MODS = ["Parser", "Root", "Bufio", "Fields", "Write", "Replay", "Unmarshal", "Event", "Session", "FieldRoutes", "Upgrade", "Writers", "Server", "Reset", "JoeLoop", "Backoff"]   # in import order
 
 
 def _theorem_at(path, lineno):
